@@ -132,6 +132,7 @@ func (b *Buffer) Slice() []interface{} {
 
 	verifAt("buffer.slice.rlock", b, 0)
 	b.mutex.RLock()
+	verifAt("buffer.slice.rlocked", b, 0)
 	defer b.mutex.RUnlock()
 
 	if b.buffer == nil {
@@ -150,6 +151,7 @@ func (b *Buffer) Size() int {
 
 	verifAt("buffer.size.rlock", b, 0)
 	b.mutex.RLock()
+	verifAt("buffer.size.rlocked", b, 0)
 	defer b.mutex.RUnlock()
 
 	return len(b.buffer)
@@ -211,6 +213,7 @@ func (b *Buffer) Diff(c Consumer) (int, bool) {
 	// then the buffer itself (we only need a read lock)
 	verifAt("buffer.diff.rlock", b, 0)
 	b.mutex.RLock()
+	verifAt("buffer.diff.rlocked", b, 0)
 	defer b.mutex.RUnlock()
 
 	// now we can check to see if it was actually from this buffer
@@ -341,6 +344,7 @@ func (b *Buffer) getAsync(ctx context.Context, c *consumer, offset int, cancels 
 	// the async case returns a channel, so this will be released in that case
 	verifAt("buffer.getasync.rlock", b, offset)
 	b.mutex.RLock()
+	verifAt("buffer.getasync.rlocked", b, 0)
 	defer b.mutex.RUnlock()
 
 	// initial check - can we get the state?
